@@ -592,6 +592,18 @@ func (reg typeRegistry) characterizeFuncDetails(fm *provider, cc charContext) (*
 		}
 	}
 
+	if a.t.Kind() == reflect.Func {
+		terminalErrors := 0
+		for _, t := range typesOut(a.t) {
+			if t == terminalErrorType {
+				terminalErrors++
+			}
+		}
+		if terminalErrors > 1 {
+			return nil, fm.errorf("returns TerminalError more than once")
+		}
+	}
+
 Match:
 	for _, match := range reg {
 		for _, predicate := range match.tests {
